@@ -15,6 +15,8 @@ replay = F.replay
 
 
 def run(ctx, model_ok, deep=False):
+    import ecframe
+    ecframe.run(ctx, model_ok, deep)
     F.run_suites(ctx, model_ok, deep, [
         ("token-bytes", S.token_bytes, S.falsify_accept,
          "all strings of length 1-4 (quick) / 1-5 (thorough) over {e . = A - 0x80}; 12x10x8 header/payload/signature part grid; random strings over a token alphabet and over all bytes; random edits of real tokens; 1k-64k inputs; x checkers {no key, oct, RSA, P-256, Ed25519}; independent well-formedness predicate as falsifier", False),
